@@ -608,6 +608,57 @@ func runC02(r *Run) {
 	}
 	r.Floor("R11", "staking handlers with a reward-paying effect", nRP, 4)
 
+	// ---------- R12: a mirror follows the account that was paid ----------
+	r.Rule("R12", "PATH.mirror-follows-the-payee: the distribution message server pays rewards and commission to the *withdraw address* of the delegator / validator, which the account may have pointed elsewhere. In a distribution handler a StateDB credit for the caller is reachable only over the edge on which the withdraw address (GetDelegatorWithdrawAddr) equals the credited account, or its amount is measured from a bank balance read after the effect — a mirror that credits the caller unconditionally pays the rewards a second time (minted at Commit) whenever the withdraw address is another account")
+	nPayee := 0
+	for _, m := range models {
+		if !m.Stateful || !strings.HasSuffix(m.Rel, "/distribution") {
+			continue
+		}
+		for _, h := range m.Handlers {
+			if h.Fn == nil || !h.IsTx {
+				continue
+			}
+			var eff ssa.CallInstruction
+			for _, s2 := range effectSites(h.Fn, 3, map[*ssa.Function]bool{}) {
+				if (strings.HasPrefix(s2.Info.Name, "WithdrawDelegatorReward") || s2.Info.Name == "WithdrawValidatorCommission" || strings.HasPrefix(s2.Info.Name, "WithdrawDelegationRewards")) && s2.Call.Parent() == h.Fn {
+					eff = s2.Call
+				}
+			}
+			if eff == nil {
+				continue
+			}
+			eq, _ := condEdges(h.Fn, func(x, y ssa.Value) bool {
+				isW := func(v ssa.Value) bool {
+					return backSlice(v).HasCall(func(g CallInfo) bool { return g.Name == "GetDelegatorWithdrawAddr" })
+				}
+				return isW(x) || isW(y)
+			})
+			eachCall(h.Fn, func(ci CallInfo) {
+				if !isStateDBBalanceWrite(ci) {
+					return
+				}
+				nPayee++
+				a := ci.Instr.Common().Args
+				measured := false
+				backSlice(a[len(a)-1]).Any(func(v ssa.Value) bool {
+					c, ok := v.(*ssa.Call)
+					if ok {
+						if g := callInfo(c); g.Recv != "StateDB" && strings.Contains(g.Name, "Balance") && instrMayPrecede(eff, c) {
+							measured = true
+						}
+					}
+					return measured
+				})
+				call := ci.Instr
+				w := PathQuery{Fn: h.Fn, Target: func(in ssa.Instruction) bool { return in == ssa.Instruction(call) }, DelEdge: edgeSet(eq)}.Search()
+				r.Check(measured || (w == nil && len(eq) > 0), "R12", fmt.Sprintf("%s#mirror-follows-the-payee/%s", fnID(h.Fn), ci.Name), P.Pos(instrPos(ci.Instr)), "credited only where the withdraw address is the credited account (or measured)",
+					"the handler credits the caller in the StateDB without having established that the rewards were paid to the caller: with a withdraw address that points elsewhere the bank pays that address and the final Commit additionally mints the same amount to the caller", P.witness(w)...)
+			})
+		}
+	}
+	r.Floor("R12", "StateDB credits in distribution handlers", nPayee, 1)
+
 	// ---------- R5 ----------
 	var wiredAddrs []string
 	for _, m := range models {
